@@ -21,7 +21,7 @@ impl Params {
         Params { leaf_k: 4, seq_len: 2, elem_k: 3, cap: 600, rec_depth: 2 }
     }
     pub fn thorough() -> Self {
-        Params { leaf_k: 6, seq_len: 3, elem_k: 3, cap: 6000, rec_depth: 2 }
+        Params { leaf_k: 6, seq_len: 3, elem_k: 4, cap: 6000, rec_depth: 2 }
     }
 }
 
